@@ -453,6 +453,12 @@ impl LexerSpec {
     pub fn add_extra_lexemes(&mut self, extra_lexemes: &[String]) {
         assert!(self.num_extra_lexemes == 0);
         self.num_extra_lexemes = extra_lexemes.len();
+        // The token masks of the slices were computed from these regexes in (default) UTF-8
+        // mode; a grammar with allow_invalid_utf8 leaves the builder in byte mode, where the
+        // same regex counts bytes instead of characters and the containment check would
+        // answer for a different language than the one the masks describe.
+        self.regex_builder.unicode(true);
+        self.regex_builder.utf8(true);
         let lex0 = self.lexemes.len();
         for (idx, added) in extra_lexemes.iter().enumerate() {
             self.add_lexeme_spec(LexemeSpec {
